@@ -17,6 +17,9 @@ type suiteFunc func(ctx *Ctx)
 
 var suites = map[string]suiteFunc{}
 
+// globalOut is the suite's output directory (scratch files such as derived datasets go below it)
+var globalOut string
+
 func register(name string, f suiteFunc) { suites[name] = f }
 
 func main() {
@@ -41,6 +44,7 @@ func main() {
 		fmt.Fprintln(os.Stderr, "missing -out")
 		os.Exit(2)
 	}
+	globalOut = *out
 	ctx := newCtx(name, *seed, *tier, *out, *replay, *shard, *shards)
 	ctx.Args = fs.Args()
 	f(ctx)
